@@ -210,7 +210,9 @@ func init() {
 		var cases []c15Case
 		k := 0
 		err := drawAll(rs.seed, n, func(t *rapidT) {
-			profs := []*profile{rangeProfile(), delegationProfile(), scopingProfile()}
+			sp := scopingProfile()
+			sp.globals = false // the configurations of this check are written file by file, without the shared globals file
+			profs := []*profile{rangeProfile(), delegationProfile(), sp}
 			mk := func(cnt int) []*Program {
 				var ps []*Program
 				for i := 0; i < cnt; i++ {
